@@ -952,7 +952,7 @@ func init() {
 			}
 			sort.Slice(scope, func(i, j int) bool { return scope[i].String() < scope[j].String() })
 			runErrorDrop(p, r, scope, func(f *types.Func) bool { return isRepoPkgPath(pkgOfFunc(f)) }, []t5Exception{
-				{caller: "(*pkg/ingest.Inserter).insertBlock", callee: "(*pkg/objects.BlockIndex).WriteTo",
+				{caller: "", callee: "(*pkg/objects.BlockIndex).WriteTo", writerIsBytesBuffer: true,
 					reason: "writes into a *bytes.Buffer, whose Write never fails; WriteTo's only error source is w.Write"},
 			})
 			return nil
